@@ -234,6 +234,19 @@ def t1_model(work, tier):
                 generated=r["generated"], distinct=r["distinct"], wall=r["wall"], ok=True)
 
 
+def t2_model(work, tier):
+    """the composition theorem T2 of Compose.tla at small scope: phase contracts (layer 2) imply C03 and C04 (layer 1)"""
+    m = 2 if tier == "quick" else 3
+    r = core.run_tlc(work, "Compose", "Compose.tla",
+                     'SPECIFICATION Spec\nCONSTANTS CN = 3 CM = %d Widths = {0, 2} Spacings = {0, 1} Props = {"C03", "C04"}\n'
+                     'INVARIANTS ConstructionMeetsContract4 T2_C03 T2_C04\nCHECK_DEADLOCK FALSE\n' % m, workers=core.NCPU, tag="t2", timeout=3000)
+    if not r["ok"]:
+        raise HarnessError("Compose.tla: composition theorem T2 (contracts => C03, C04) fails at small scope:\n" + r["out"][-2500:])
+    return dict(name="Compose.tla T2 (every drawing the phase contracts allow satisfies C03_Fail = C04_Fail = {}): connected lists with <= 3 nodes / %d edges x reversal sets x "
+                     "feasible layerings x layer orders incl. helper nodes x widths {0,2} x 3 height patterns x NodeSpacing {0,1} x slack {0,1} per node" % m,
+                generated=r["generated"], distinct=r["distinct"], wall=r["wall"], ok=True)
+
+
 def mech_model(work, name, spec, cfg, what, workers=None, timeout=3000):
     """an exhaustive layer-3 mechanism model; its failure means the model (or a constant) was changed: exit 2"""
     r = core.run_tlc(work, name, spec, cfg, workers=workers or core.NCPU, tag="mech-" + name, timeout=timeout)
